@@ -36,10 +36,26 @@ def make_search(mido, L, reps):
             s.fed.append(b)
         return s
 
+    CHUNKS = ((0x80, 2, 3), (0xC1, 5), (0xF0, 1, 0xF7), (0xF8,), (0xF2, 1, 2),
+              (0x93, 4), (5, 6), (0xF7, 0x94, 7, 8))
+
     def ops(s, hist):
-        return range(256)
+        # every single byte, and whole chunks passed to feed() in one call
+        return list(range(256)) + [('feed', c, f) for c in CHUNKS
+                                   for f in ('list', 'bytes')]
 
     def apply(s, b):
+        if isinstance(b, tuple):
+            chunk = b[1]
+            try:
+                s.parser.feed(list(chunk) if b[2] == 'list' else bytes(chunk))
+                got = list(s.parser)
+            except Exception as e:
+                s.fed.extend(chunk)
+                return ('raised', e)
+            s.fed.extend(chunk)
+            s.out.extend(got)
+            return ('ok', got)
         try:
             s.parser.feed_byte(b)
             got = list(s.parser)
@@ -50,7 +66,27 @@ def make_search(mido, L, reps):
         s.out.extend(got)
         return ('ok', got)
 
+    def flat(hist):
+        out = []
+        for h in hist:
+            out.extend(h[1]) if isinstance(h, tuple) else out.append(h)
+        return out
+
     def check(s, hist, b, obs, violation):
+        if isinstance(b, tuple):
+            case = {'kind': 'chunked', 'first': flat(hist), 'chunk': list(b[1]),
+                    'form': b[2]}
+            if obs[0] == 'raised':
+                violation(f'closure/raised-chunk/{type(obs[1]).__name__}',
+                          f'feed_byte x {hexs(flat(hist))} then '
+                          f'feed({hexs(b[1])}) raised {obs[1]!r}', case)
+                return
+            r = stream_oracle(mido, s.fed, s.out)
+            if r is not None:
+                violation('closure/chunk-' + r[0],
+                          f'feed_byte x {hexs(flat(hist))} then '
+                          f'feed({hexs(b[1])}) -> {s.out!r}: {r[1]}', case)
+            return
         case = {'kind': 'stream', 'bytes': list(hist) + [b]}
         if obs[0] == 'raised':
             violation(f'closure/raised/{type(obs[1]).__name__}',
@@ -91,6 +127,8 @@ def make_search(mido, L, reps):
         return n
 
     def expand(s, hist, b):
+        if isinstance(b, tuple):
+            return False        # chunk feeds are checked, not expanded
         if b >= 0x80:
             return True
         return b in reps and data_run(hist + (b,)) <= L
@@ -211,6 +249,22 @@ def run():
 def check_case(case):
     mido = common.import_mido()
     acc = Acc()
+    if case['kind'] == 'chunked':
+        p = mido.Parser()
+        out = []
+        try:
+            for b in case['first']:
+                p.feed_byte(b)
+                out.extend(p)
+            p.feed(list(case['chunk']) if case['form'] == 'list'
+                   else bytes(case['chunk']))
+            out.extend(p)
+            r = stream_oracle(mido, case['first'] + case['chunk'], out)
+            if r:
+                acc.violation('closure/chunk-' + r[0], r[1])
+        except Exception as e:
+            acc.violation(f'closure/raised-chunk/{type(e).__name__}', repr(e))
+        return [(k, v[0][1]) for k, v in acc.viol.items()]
     check_string(mido, tuple(case['bytes']), acc)
     # closure-style run: byte by byte
     p = mido.Parser()
